@@ -64,6 +64,7 @@ type SV struct {
 	fn  *ssa.Function // static function value / closure
 	bnd []SV          // closure bindings
 	srt string        // SMT sort for spec-only values (typ == nil)
+	dyn *SV           // for interface values built by MakeInterface: the boxed concrete value
 }
 
 type State struct {
@@ -129,6 +130,7 @@ type VC struct {
 	preHeaps []string
 	name     string
 	paramOrder []string
+	ghostType map[string]types.Type
 }
 
 type panicSite struct {
@@ -508,7 +510,7 @@ func (vc *VC) typeFacts(x T, t types.Type, alloc T, depth int) T {
 			return tTrue
 		}
 		fs := []T{le("0", app("s_off", x)), le("0", app("s_len", x)), le(app("s_len", x), app("s_cap", x)), le("0", app("s_ref", x)),
-			le(app("s_cap", x), "4611686018427387904"),
+			le(app("s_cap", x), "281474976710656"),
 			implies(eq(app("s_ref", x), "0"), and(eq(app("s_cap", x), "0"), eq(app("s_off", x), "0")))}
 		if alloc != "" {
 			fs = append(fs, lt(app("s_ref", x), alloc))
